@@ -22,7 +22,9 @@ ASSUMPTIONS = ['normalisation by what the xlsx format itself loses: integral flo
 DT = datetime.datetime
 VALUES = [7, 2.5, -3, 123456789012, True, 'text', DT(2021, 3, 4, 5, 6, 7), datetime.date(2020, 2, 29), False, '#N/A', '=1+2',
           1 / 3, math.pi, -2 / 3, 'it\'s "q"', datetime.time(1, 2, 3), 0, ' lead', '12', 1e-7, 1234567.125,
-          ('$array', '=2*3'), ' =1+2', '\t=A1', "'=1+2", ' ']
+          ('$array', '=2*3'), ' =1+2', '\t=A1', "'=1+2", ' ',
+          # array formulas whose stored text ends with a blank / a line break (typed after the formula)
+          ('$array', '=2*3 '), ('$array', '=2*\n3\n')]
 TITLES = ['S1', 'Sheet 2', 'Лист3', 'x']
 
 
